@@ -433,18 +433,28 @@ def rowpoly_calls(draw, depth=2):
 
 @st.composite
 def typedefs(draw, force_copy=False):
-    """Generated TypeDef description: explicit bound or from-params bound whose
-    indices name TypeTypeParams (the documented domain)."""
+    """Generated TypeDef description: explicit bound or from-params bound (index lists mostly over the
+    type parameters, sometimes empty, sometimes naming a non-type parameter before a type parameter)."""
     ps = draw(st.lists(params(1), max_size=3))
+    shape = "E" if force_copy else draw(st.sampled_from(["E", "E", "E", "F", "F", "F", "F", "empty", "mixed", "mixed"]))
+    if shape == "mixed":
+        # a named argument that is not a type contributes nothing; the type argument named after it does
+        non = draw(st.sampled_from([{"k": "nat", "max": None}, {"k": "string"}, {"k": "nat", "max": 7}]))
+        ps = ps[:2]
+        ps.insert(draw(st.integers(0, len(ps))), non)
+        ps.insert(draw(st.integers(0, len(ps))), {"k": "type", "b": "A"})
+        ni = next(i for i, p in enumerate(ps) if p is non)
+        ti = next(i for i, p in enumerate(ps) if p["k"] == "type" and p["b"] == "A")
+        b = {"b": "F", "idx": [ni, ti] + draw(st.lists(st.integers(0, len(ps) - 1), max_size=2))}
+        return {"ext": draw(EXT_NAMES), "name": draw(NAMES), "params": [dict(p) for p in ps], "bound": b, "desc": draw(DESCS)}
     tidx = [i for i, p in enumerate(ps) if p["k"] == "type"]
-    if not force_copy and draw(st.integers(0, 11)) == 0:
+    if shape == "empty":
         # a from-params bound naming no parameter: the join of nothing is Copyable
-        return {"ext": draw(EXT_NAMES), "name": draw(NAMES), "params": ps, "bound": {"b": "F", "idx": []}, "desc": draw(DESCS)}
-    if force_copy or not tidx or draw(st.integers(0, 2)) == 0:
+        b = {"b": "F", "idx": []}
+    elif shape == "E" or not tidx:
         b = {"b": "E", "v": "C" if force_copy else draw(st.sampled_from(BOUNDS))}
     else:
-        idx = draw(st.lists(st.sampled_from(tidx), min_size=0 if draw(st.integers(0, 5)) == 0 else 1, max_size=3))
-        b = {"b": "F", "idx": idx}
+        b = {"b": "F", "idx": draw(st.lists(st.sampled_from(tidx), min_size=1, max_size=3))}
     return {"ext": draw(EXT_NAMES), "name": draw(NAMES), "params": ps, "bound": b, "desc": draw(DESCS)}
 
 
@@ -455,7 +465,7 @@ def ext_types(draw, depth=2, nest=1):
     a = []
     for p in d["params"]:
         if p["k"] == "type":
-            t = draw(types(depth - 1, copy_only=True) if p["b"] == "C" else inner)
+            t = draw(types(depth - 1, copy_only=True) if p["b"] == "C" else weighted((1, st.just({"k": "qubit"})), (3, inner)))
             a.append({"k": "type", "t": t})
         else:
             a.append(draw(arg_for_param(p, depth - 1)))
